@@ -30,7 +30,7 @@ Qed.
 Lemma pinned_a85_z_refuted : forall dbg, exists p e, a85_enc p e /\ a85_decode_pinned dbg e <> Ok p.
 Proof.
   intros dbg. exists [0; 0; 0; 0], (B "z~>"). split.
-  - exists (B "z"), (B "z"). split; [|split; [|reflexivity]]; [apply ad_z; constructor | repeat apply il_keep; apply il_nil].
+  - exists (B "z"). split; [apply ad_z; constructor | repeat apply il_keep; apply il_nil].
   - destruct dbg; vm_compute; discriminate.
 Qed.
 
